@@ -42,6 +42,7 @@ def verify_contract(ex: Exec, c: api.Contract):
     """Generate all obligations for the function c.target against contract c."""
     finfo = ex.repo.lookup(c.target)
     ex.cur_func = c.target
+    ex.top_contract = c  # ghost output streams may be written only if listed in its modifies (pyvc/effects.py)
     a = finfo.node.args
     pnames = [x.arg for x in a.posonlyargs + a.args + a.kwonlyargs]
     if a.vararg or a.kwarg:
@@ -60,6 +61,10 @@ def verify_contract(ex: Exec, c: api.Contract):
         params = {}
         for n in pnames:
             ty = c.types.get(n)
+            if ty is None and n == "cls" and finfo.kind == "classmethod" and finfo.cls is not None:
+                from .ty import VClass
+                params[n] = VClass(finfo.cls)  # the class itself (subclass dispatch is not modelled)
+                continue
             if ty is None:
                 if n in ("self", "cls") and finfo.cls is not None:
                     ty = Rec(finfo.cls.name, cls=finfo.cls.key)
@@ -73,8 +78,10 @@ def verify_contract(ex: Exec, c: api.Contract):
         fr.env.update(params)
         memo = {}
         old = VRec(Rec("old"), {k: v.clone(memo) for k, v in params.items()})
+        from . import effects
+        effects.add_old(ex, old.fields)  # old.stdout / old.stderr
         fr.env["__old__"] = old
-        entry = dict(old.fields)
+        entry = {k: old.fields[k] for k in params}
         entry["old"] = old
         if "requires" in c.methods:
             ex.assume(truthy(ex.spec_eval(c, "requires", entry)))
@@ -94,11 +101,21 @@ def verify_contract(ex: Exec, c: api.Contract):
             elif "raises_when" in c.methods:
                 ex.oblige("raises", truthy(ex.spec_eval(c, "raises_when", entry)), finfo.node.lineno,
                           note=f"{cls} raised outside the declared condition", label="raises.only_when")
-            for name in sorted(n for n in c.methods if n.startswith("on_raise")):
+            for name in sorted(n for n in c.methods if n.startswith("on_raise") or n.startswith("at_exit")):
                 vals = dict(params)
                 vals["old"] = old
+                if rs.exc.msg is not None:
+                    vals["exc"] = rs.exc.msg  # the value carried by the exception (exit code of SystemExit)
+                if name.startswith("at_exit"):
+                    # exit-point assertion: may name locals of the function as ghost witnesses (never assumed by callers)
+                    for x in c.methods[name].args.args:
+                        if x.arg not in vals and fr.lookup(x.arg) is not None:
+                            vals[x.arg] = fr.lookup(x.arg)
                 ex.oblige("post", truthy(ex.spec_eval(c, name, vals)), finfo.node.lineno, label=f"post.{name}")
             return
+        for name in sorted(n for n in c.methods if n.startswith("at_exit")):
+            ex.oblige("post", z3.BoolVal(False), finfo.node.lineno, label=f"post.{name}",
+                      note="the function returned normally: an at_exit clause is stated for functions that never return")
         if "raises_when" in c.methods:
             ex.oblige("raises", z3.Not(truthy(ex.spec_eval(c, "raises_when", entry))), finfo.node.lineno,
                       note="returned normally although the contract says it must raise", label="raises.must")
@@ -136,6 +153,8 @@ def verify_contract(ex: Exec, c: api.Contract):
                     ex.run.ctx.pop()
         diffs = []
         for n in pnames:
+            if n == "cls" and finfo.kind == "classmethod":
+                continue
             _frame_diff(ex, params[n], old.fields[n], n, c.modifies, diffs)
         for p, cond in diffs:
             ex.oblige("frame", cond, finfo.node.lineno, note=f"{p} changed but is not in modifies", label=f"frame.{p}")
@@ -151,6 +170,7 @@ def verify_contract(ex: Exec, c: api.Contract):
 
 def verify_lemma(ex: Exec, lem: api.Lemma):
     ex.cur_func = f"lemma:{lem.name}"
+    ex.cur_lemma = lem  # use(): only earlier lemmas of the same file may be assumed
     mod = ex.spec_module(lem.module)
     uses_code = any(isinstance(n, ast.Call) and isinstance(n.func, ast.Name) and n.func.id == "call"
                     for n in ast.walk(lem.node))
@@ -204,7 +224,14 @@ def discharge(ob: Obligation, timeout_ms=10000, use_cvc5=True):
     if z3.is_true(g):
         ob.verdict, ob.solver, ob.ms = "discharged", "simplifier", 0.0
         return ob
-    first = min(timeout_ms, 3000)
+    # wall-clock budgets are stretched when the machine is oversubscribed, so verdicts do not flip under load
+    try:
+        load = os.getloadavg()[0] / max(1, os.cpu_count() or 1)
+    except OSError:
+        load = 1.0
+    stretch = min(6.0, max(1.0, load))
+    timeout_ms = int(timeout_ms * stretch)
+    first = int(min(timeout_ms, 3000 * stretch))
     from .run import guarded_check
     assertions = list(ob.pc) + [z3.Not(g)]
 
